@@ -130,6 +130,7 @@ var seedExpectations = []seedExpect{
 	{"rzsw-nomerge", "C02", "spirv.mergefirst", "emitImageLoadRZSW"},
 	{"if-block-dropped", "C02", "spirv.blockstate", "emitIf"},
 	{"type-bytext", "C15", "type.bytext", "writeFunctionBody"},
+	{"template-close", "C08", "template.close", "typeSpec"},
 }
 
 // overlayFromPatch materialises the files a unified diff touches, patches
